@@ -193,9 +193,11 @@ def main(argv):
     if viol_lines:
         return 1
     if undecided:
-        for u in undecided[:10]:
-            print(f'UNDECIDED unit={u["unit"]}: {u["reason"]}', file=sys.stderr)
+        for u in undecided[:4]:
+            print(f'UNDECIDED unit={u["unit"]}: {u["reason"][:400]}', file=sys.stderr)
             if u.get('detail'):
-                print(u['detail'], file=sys.stderr)
+                print(u['detail'][:600], file=sys.stderr)
+        if len(undecided) > 4:
+            print(f'... and {len(undecided) - 4} more undecided entries (see the evidence file)', file=sys.stderr)
         return 2
     return 0
